@@ -594,7 +594,7 @@ pub fn rounding_across_days_case() -> BoxedStrategy<Case> {
 }
 
 pub fn run(ctx: &mut Ctx) {
-    ctx.rule = "[plus 100k (thorough 3M) until / since / Duration::round cases with an hour or minute increment > 1, a date largest unit and the other end 23 h +- 2 h after a whole number of days, i.e. a rounded time part that reaches the length of a day that is not 24 h long] zones as in C13 (fixed offsets, synthetic rule tables with shifts from 1 minute to 26 h, tables shaped like New York / Lord Howe / Apia / Dublin / Kolkata / Kiritimati) served through the harness provider, plus every real IANA zone end to end through the crate's bundled provider (oracle table = the zone's listed TZif transitions read by the harness's own reader; instants at least 8 years before the end of the table); instants within +-2 days of a transition (edges +-1 ns) paired with a second instant 0 ns .. decades away in both orders; ops: add/subtract (date units on the wall clock re-resolved compatible, time units exact), until/since with time largest units (exact elapsed, rounded) and date largest units (reference DifferenceZonedDateTime + RoundRelativeDuration on the rule table, plus oracle-free laws: sign-uniform, receiver.add(result) == other, time part shorter than a local day), start_of_day, hours_in_day (whole-hour days; fractional-hour days executed but unjudged because the API returns an integer), with_plain_time, date-only strings, Duration round/total/compare relative to a ZonedDateTime. non-trivial = the pair straddles a transition, the local day is not 24 h, or negative direction with reversed time-of-day order.".into();
+    ctx.rule = "[plus 100k (thorough 3M) until / since / Duration::round cases with an hour or minute increment > 1, a date largest unit and the other end 23 h +- 2 h after a whole number of days, i.e. a rounded time part that reaches the length of a day that is not 24 h long] zones as in C13 (fixed offsets, synthetic rule tables with shifts from 1 minute to 26 h, tables shaped like New York / Lord Howe / Apia / Dublin / Kolkata / Kiritimati) served through the harness provider, plus every real IANA zone end to end through the crate's bundled provider (oracle table = the zone's listed TZif transitions read by the harness's own reader; instants at least 8 years before the end of the table); instants within +-2 days of a transition (edges +-1 ns) paired with a second instant 0 ns .. decades away in both orders; ops: add/subtract (date units on the wall clock re-resolved compatible, time units exact), until/since with time largest units (exact elapsed, rounded) and date largest units (reference DifferenceZonedDateTime + RoundRelativeDuration on the rule table, plus oracle-free laws: sign-uniform, receiver.add(result) == other, time part shorter than a local day), start_of_day, hours_in_day (the real elapsed length of the local day; on days that are not a whole number of hours long the integer return type cannot carry it: listed finding), with_plain_time, date-only strings, Duration round/total/compare relative to a ZonedDateTime. non-trivial = the pair straddles a transition, the local day is not 24 h, or negative direction with reversed time-of-day order. Plus the zoned part of C02's limits grid (try_new, PlainDate / PlainDateTime to zoned, zoned strings on the first and last representable days +- 4, fixed offsets through the harness provider and four rule-less named zones through the bundled provider at the upper end).".into();
     ctx.assumptions = vec![
         "provider contract as in C13 (tzp.rs)".into(),
         "rule sets for which the specification's own day-correction loop does not converge are unjudged (counted)".into(),
